@@ -8,6 +8,7 @@ import (
 	"sort"
 	"strconv"
 	"strings"
+	"sync"
 
 	shared "github.com/aquilax/hranoprovod-cli/v3"
 	"github.com/aquilax/hranoprovod-cli/v3/parser"
@@ -481,6 +482,47 @@ func (c *CaseC01) Eval(ob *Obs) []Finding {
 	if c.Only == nil && len(out) == 0 {
 		out = append(out, c.evalReuse(ob, m, L, exact)...)
 	}
+	if raceBuild && c.Only == nil && len(out) == 0 {
+		// under the race detector: four goroutines resolve private copies of the book at the same time
+		// (the library keeps no state of its own, so independent books may be resolved concurrently)
+		var wg sync.WaitGroup
+		whys := make([]string, 4)
+		for g := 0; g < 4; g++ {
+			db, err := parseBook(text)
+			if err != nil {
+				break
+			}
+			wg.Add(1)
+			go func(g int, db shared.DBNodeMap) {
+				defer wg.Done()
+				defer func() {
+					if r := recover(); r != nil {
+						whys[g] = fmt.Sprint("panic: ", r)
+					}
+				}()
+				if _, err := resolver.Resolve(resolver.Config{MaxDepth: c.MaxDepth}, db); err != nil {
+					whys[g] = err.Error()
+					return
+				}
+				mg := newRefModel(c.Book)
+				for _, n := range mg.order {
+					mg.resolved(n)
+				}
+				whys[g] = c.compareResolved(db, mg, exact)
+			}(g, db)
+		}
+		wg.Wait()
+		ob.count("lib_evals", 4)
+		ob.probe("concurrent_resolutions_under_race_detector")
+		// What the goroutines computed is not judged here: a wrong value caused by a race comes and goes
+		// from run to run and would not replay. The race detector is the oracle of this arm - it reports
+		// conflicting accesses whether or not they happened to collide, and ends the worker with status 66.
+		for _, why := range whys {
+			if why != "" {
+				ob.probe("concurrent_resolution_differs_from_model")
+			}
+		}
+	}
 	if c.CLI && c.Only == nil {
 		out = append(out, c.evalCLI(ob, m)...)
 		if len(out) == 0 {
@@ -789,6 +831,98 @@ func genC11(thorough bool) func(t *rapid.T) Case {
 	}
 }
 
+// evalReuse: after a successful resolution the caller changes the book and resolves again with the
+// same Resolver value (and, for comparison, with the function): (a) a new recipe that uses the
+// formerly deepest recipe once - the book is flat now, so its longest chain is 2 references;
+// (b) a recipe redefined to use itself - a cycle, which must be rejected.
+func (c *CaseC11) evalReuse(ob *Obs, m *refModel, text string) []Finding {
+	names := append([]string{}, m.order...)
+	sort.Strings(names)
+	deepest, best := names[0], -1
+	// the deepest recipe of the original book
+	for _, n := range names {
+		sub := newRefModel(nil)
+		sub.book, sub.order = m.book, []string{n}
+		if d := sub.chainLen(); d > best {
+			deepest, best = n, d
+		}
+	}
+	for _, entry := range []string{"struct", "func"} {
+		for _, variant := range []string{"flat-then-new-user", "redefined-into-cycle"} {
+			db, err := parseBook(text)
+			if err != nil {
+				return nil
+			}
+			w := noFaultWorld()
+			w.Order = OrderPlan{Mode: "shuffle", Seed: c.Seeds[3]}
+			st := verifsim.InstallLight(w)
+			var e1, e2 error
+			pan := ""
+			func() {
+				defer func() {
+					if r := recover(); r != nil {
+						pan = fmt.Sprint(r)
+					}
+				}()
+				enterSUT()
+				defer leaveSUT()
+				cfg := resolver.Config{MaxDepth: c.MaxDepth}
+				r := resolver.NewResolver(db, cfg)
+				if entry == "struct" {
+					e1 = r.Resolve()
+				} else {
+					_, e1 = resolver.Resolve(cfg, db)
+				}
+				node := shared.NewParserNode("hrsim/user")
+				node.Elements.Add(deepest, 1)
+				if variant == "redefined-into-cycle" {
+					node = shared.NewParserNode(deepest)
+					node.Elements.Add(deepest, 1)
+				}
+				db.Push(shared.NewDBNodeFromNode(node))
+				if entry == "struct" {
+					e2 = r.Resolve() // the same Resolver value
+				} else {
+					_, e2 = resolver.Resolve(cfg, db)
+				}
+			}()
+			st.UninstallLight()
+			ob.count("lib_evals", 2)
+			ob.probe("resolver_used_again_after_book_changed")
+			if pan != "" || e1 != nil {
+				return []Finding{{"C11 reuse-first-call-wrong entry=" + entry, fmt.Sprintf("first call: err=%v panic=%q although the longest chain is below the limit", e1, pan)}}
+			}
+			// the reference model of the changed book: after the first call every recipe is flat (its
+			// resolved elements), plus the recipe that was added or redefined
+			var book2 []Block
+			for _, n := range m.order {
+				bl := Block{Head: n}
+				var els []string
+				for el := range m.resolved(n) {
+					els = append(els, el)
+				}
+				sort.Strings(els)
+				for _, el := range els {
+					bl.Items = append(bl.Items, Item{el, "1"})
+				}
+				book2 = append(book2, bl)
+			}
+			if variant == "redefined-into-cycle" {
+				book2 = append(book2, Block{Head: deepest, Items: []Item{{deepest, "1"}}})
+			} else {
+				book2 = append(book2, Block{Head: "hrsim/user", Items: []Item{{deepest, "1"}}})
+			}
+			L2 := newRefModel(book2).chainLen()
+			wantErr := L2 == -1 || L2 >= c.MaxDepth
+			if (e2 != nil) != wantErr {
+				return []Finding{{"C11 reuse-after-change-wrong entry=" + entry + " change=" + variant,
+					fmt.Sprintf("limit %d; after a successful resolution the book was changed (%s, recipe %q, original depth %d) and resolved again with the same resolver: error=%v, expected error=%v", c.MaxDepth, variant, deepest, best, e2, wantErr)}}
+			}
+		}
+	}
+	return nil
+}
+
 // flakyC11 turns "the same case gave two different outcomes in this process" into a
 // replayable case: the recent history of resolutions.
 func flakyC11() Case {
@@ -873,6 +1007,9 @@ func (c *CaseC11) Eval(ob *Obs) []Finding {
 				return append(out, *f)
 			}
 		}
+	}
+	if c.Only == nil && len(out) == 0 && !wantErr && len(m.order) > 0 {
+		out = append(out, c.evalReuse(ob, m, text)...)
 	}
 	if c.CLI && c.Only == nil {
 		for _, sh := range []string{"csv database-resolved", "reg", "bal", "report totals"} {
